@@ -54,6 +54,7 @@ fn main() {
         ("C15", "drive") => c15::drive_c15(rest),
         ("C16", "drive") => c15::drive_c16(rest),
         ("C17", "drive") => c15::drive_c17(rest),
+        ("C17", "explore-prisms") => c15::explore_prisms(rest),
         ("C18", "replay") => c18::replay(rest),
         ("C18", "drive") => c18::drive(rest),
         ("C19", "replay") => c19::replay(rest),
